@@ -605,12 +605,16 @@ func (c *Client) Do(m *Message, f func(Event)) error {
 	return nil
 }
 
-func (c *Client) delete(id transactionID) {
+// delete unregisters transaction, returning false if it was not registered.
+func (c *Client) delete(id transactionID) bool {
 	c.mux.Lock()
-	if c.t != nil {
+	_, found := c.t[id]
+	if found {
 		delete(c.t, id)
 	}
 	c.mux.Unlock()
+
+	return found
 }
 
 type buffer struct {
@@ -731,7 +735,13 @@ func (c *Client) Start(msg *Message, handler Handler) error {
 	}
 	_, err := msg.WriteTo(c.c)
 	if err != nil && handler != nil {
-		c.delete(msg.TransactionID)
+		if !c.delete(msg.TransactionID) {
+			// Transaction is already completed (or is being completed) by
+			// concurrent response, timeout or close, so the handler is called.
+			// Not returning the error, because handler should be never
+			// called if Start fails.
+			return nil
+		}
 		// Stopping transaction instead of waiting until deadline.
 		if stopErr := c.a.Stop(msg.TransactionID); stopErr != nil {
 			return StopErr{
